@@ -113,7 +113,7 @@ func hField(n string) tmpl { return tmpl{text: fieldName(n), spec: "(field " + f
 func hCur() tmpl           { return tmpl{text: "@", spec: "(cur)"} }
 func hNone() tmpl          { return tmpl{text: "", spec: "(id)"} }
 func hLit(j string) tmpl   { return tmpl{text: "`" + j + "`", spec: "(lit " + j + ")"} }
-func hRaw(s string) tmpl   { return tmpl{text: "'" + s + "'", spec: "(raw " + s + ")"} }
+func hRaw(s string) tmpl   { return tmpl{text: "'" + s + "'", spec: "(raw " + fieldName(s) + ")"} }
 func hParen(t tmpl) tmpl   { return tmpl{text: "(" + t.text + ")", spec: t.spec, mode: t.mode, ints: t.ints} }
 func paren(t tmpl, need bool) tmpl {
 	if need {
@@ -284,6 +284,11 @@ func cmp(op [2]string, l, r tmpl) tmpl { return bin(op[0], "cmp "+op[1], 5, l, r
 
 func (t tmpl) job(prop string, depth int) *Job {
 	j := jobOf("VerifEval", []string{prop}, "expr", t.text, "spec", t.spec, "prop", prop, "mode", itoa(t.mode), "depth", itoa(depth), "ints", itoa(countInts(t.text)))
+	// loops over the expression text (lexer, oracle tokenizer) are bounded by its length
+	j.Unwind = 64 + 2*len(t.spec) + 2*len(t.text)
+	if strings.Contains(t.text, "avg(") || strings.Contains(t.text, "sum(") {
+		j.Solver = "cvc5" // sums of doubles: z3 4.8.12 needs >15 s per query, cvc5 ~2 s
+	}
 	return j
 }
 
@@ -395,9 +400,9 @@ var errCalls = []tmpl{call("nosuch", hCur()), call("abs", hRaw("s")), call("abs"
 
 func projSteps(th bool) []step {
 	ps := []step{sProj(), sVproj(), sFlat(), sFilter(hField("a")), sFilter(cmp(cmpOps[0], hField("a"), hField("b"))),
-		sFilter(cmp(cmpOps[4], hCur(), hLit("1"))), sSlice("?1", "?2", "?3"), sSlice("_", "_", "2"), sSlice("1", "_", "_")}
+		sFilter(cmp(cmpOps[4], hCur(), hLit("1"))), sSlice("_", "_", "2"), sSlice("1", "_", "_"), sSlice("_", "_", "-1")}
 	if th {
-		ps = append(ps, sFilter(hCur()), sFilter(tNot(hField("a"))), sSlice("_", "?1", "_"), sSlice("_", "_", "-1"), sSlice("?1", "_", "?2"))
+		ps = append(ps, sSlice("?1", "?2", "?3"), sFilter(hCur()), sFilter(tNot(hField("a"))), sSlice("_", "?1", "_"), sSlice("?1", "_", "?2"))
 	}
 	return ps
 }
@@ -414,9 +419,13 @@ func rhsChains(th bool) [][]step {
 func familyProj(tier string) []tmpl {
 	th := tier == "thorough"
 	var out []tmpl
-	lefts := []tmpl{hNone(), hField("a"), buildChain(hField("a"), sField("b")), hLit(`[[1,2],[3],4,null,{"a":[5]}]`), errCalls[1]}
+	lefts := []tmpl{hNone(), hField("a"), hLit(`[[1,2],[3],4,null,{"a":[5]}]`), errCalls[1]}
 	if th {
-		lefts = append(lefts, hCur(), hLit(`{"x":[1],"y":null,"z":{"a":2}}`), errCalls[2])
+		lefts = append(lefts, buildChain(hField("a"), sField("b")), hCur(), hLit(`{"x":[1],"y":null,"z":{"a":2}}`), errCalls[2])
+	}
+	// symbolic slice bounds (every start/stop/step) with the two simplest right-hand sides
+	for _, l := range []tmpl{hNone(), hField("a")} {
+		out = append(out, buildChain(l, sSlice("?1", "?2", "?3")), buildChain(l, sSlice("?1", "?2", "?3"), sField("a")))
 	}
 	for _, l := range lefts {
 		for _, p := range projSteps(th) {
@@ -430,16 +439,19 @@ func familyProj(tier string) []tmpl {
 	// terminators: where the projection stops
 	base := []tmpl{buildChain(hField("a"), sProj(), sField("b")), buildChain(hNone(), sVproj(), sField("a")),
 		buildChain(hField("a"), sFlat(), sField("b")), buildChain(hField("a"), sFilter(hField("b")), sField("a")),
-		buildChain(hField("a"), sSlice("?1", "?2", "?3"), sField("b"))}
+		buildChain(hField("a"), sSlice("1", "_", "_"), sField("b"))}
 	for _, b := range base {
 		out = append(out, pipe(b, buildChain(hNone(), sIndex("0"))), pipe(b, hField("a")), tOr(b, hField("b")), tAnd(b, hField("b")),
 			cmp(cmpOps[0], b, hLit("[]")), buildChain(hParen(b), sIndex("0")), buildChain(hParen(b), sField("a")),
 			hList(b, hField("a")), tNot(hParen(b)))
 	}
 	// chained and nested projections
-	two := []step{sProj(), sVproj(), sFlat(), sFilter(hField("a")), sSlice("?1", "_", "?2")}
+	two := []step{sProj(), sVproj(), sFlat(), sFilter(hField("a")), sSlice("_", "_", "-1")}
 	for _, p1 := range two {
 		for _, p2 := range two {
+			if !th && p1.obj && p2.obj {
+				continue
+			}
 			out = append(out, buildChain(hField("a"), p1, p2), buildChain(hField("a"), p1, sField("b"), p2), buildChain(hNone(), p1, p2, sField("a")))
 			if th {
 				out = append(out, buildChain(hField("a"), p1, p2, sFlat()), buildChain(hNone(), p1, sField("a"), p2, sField("b")))
@@ -544,5 +556,122 @@ func familyPrec(tier string) []tmpl {
 		tmpl{text: "(a || b) && c", spec: "(and (or (field a) (field b)) (field c))"}, tmpl{text: "a || (b && c)", spec: "(or (field a) (and (field b) (field c)))"})
 	_ = a
 	_ = b
+	return dedupe(out)
+}
+
+// ---------- functions (C09, C10) ----------
+
+var funcArity = map[string]int{"abs": 1, "avg": 1, "ceil": 1, "contains": 2, "ends_with": 2, "floor": 1, "join": 2, "keys": 1,
+	"length": 1, "map": 2, "max": 1, "max_by": 2, "merge": 1, "min": 1, "min_by": 2, "not_null": 1, "reverse": 1, "sort": 1,
+	"sort_by": 2, "starts_with": 2, "sum": 1, "to_array": 1, "to_string": 1, "to_number": 1, "type": 1, "values": 1, "nosuch": 1}
+
+var funcNames = []string{"abs", "avg", "ceil", "contains", "ends_with", "floor", "join", "keys", "length", "map", "max", "max_by",
+	"merge", "min", "min_by", "not_null", "reverse", "sort", "sort_by", "starts_with", "sum", "to_array", "to_string", "to_number",
+	"type", "values", "nosuch"}
+
+func tuples(alpha []tmpl, k int) [][]tmpl {
+	if k == 0 {
+		return [][]tmpl{{}}
+	}
+	var out [][]tmpl
+	for _, t := range tuples(alpha, k-1) {
+		for _, a := range alpha {
+			out = append(out, append(append([]tmpl{}, t...), a))
+		}
+	}
+	return out
+}
+
+// familyFunc: every function applied to every tuple over {a, b, &@} at its
+// own arity, and all-value tuples one below / one above. a and b are lazy
+// document members (any JSON kind), &@ is an expression reference.
+func familyFunc(tier string) []tmpl {
+	th := tier == "thorough"
+	alpha := []tmpl{hField("a"), hField("b"), ref(hCur())}
+	if th {
+		alpha = append(alpha, ref(hField("b")), hCur())
+	}
+	var out []tmpl
+	for _, f := range funcNames {
+		k := funcArity[f]
+		for _, t := range tuples(alpha, k) {
+			out = append(out, call(f, t...))
+		}
+		vals := []tmpl{hField("a"), hField("b"), hField("a")}
+		if k > 0 {
+			out = append(out, call(f, vals[:k-1]...))
+		}
+		out = append(out, call(f, vals[:k+1]...))
+		if th && k+2 <= 3 {
+			out = append(out, call(f, vals[:k+2]...))
+		}
+	}
+	// variadic functions: every position is checked
+	out = append(out, call("merge", hField("a"), hField("b")), call("merge", hField("a"), hField("b"), hField("a")),
+		call("not_null", hField("a"), hField("b")), call("not_null", hField("a"), ref(hCur())), call("not_null", ref(hCur()), hField("a")),
+		call("merge", hField("a"), ref(hCur())), call("merge"), call("not_null"))
+	// by-expression keys through a member of each element
+	for _, f := range []string{"sort_by", "max_by", "min_by"} {
+		out = append(out, call(f, hField("a"), ref(hField("b"))), call(f, hField("a"), ref(errCalls[1])), call(f, hField("a"), ref(call("abs", hCur()))))
+	}
+	out = append(out, call("map", ref(hField("b")), hField("a")), call("map", ref(errCalls[2]), hField("a")), call("map", ref(hLit("null")), hField("a")))
+	// concrete corner cases
+	out = append(out, call("avg", hLit("[]")), call("sum", hLit("[]")), call("max", hLit("[]")), call("min", hLit("[]")),
+		call("max_by", hLit("[]"), ref(hCur())), call("min_by", hLit("[]"), ref(hCur())), call("sort_by", hLit("[]"), ref(hCur())),
+		call("to_number", hRaw("inf")), call("to_number", hRaw("-Inf")), call("to_number", hRaw("nan")), call("to_number", hRaw("1e3")),
+		call("to_number", hRaw("x")), call("to_number", hRaw("")), call("length", hLit(`"aé€𝄞"`)), call("reverse", hLit(`"aé€𝄞"`)),
+		call("sort", hLit(`["b","a","é","B"]`)), call("max", hLit(`["b","é","a"]`)), call("min", hLit(`["b","é","a"]`)),
+		call("sort", hLit("[3,1,2,1]")), call("contains", hLit("[[1],{}]"), hLit("[1]")), call("contains", hLit("[[1],{}]"), hLit("{}")),
+		call("contains", hRaw("abc"), hRaw("bc")), call("contains", hRaw("abc"), hLit("1")), call("join", hRaw(","), hLit(`["a","b"]`)),
+		call("join", hRaw(","), hLit("[]")), call("merge", hLit(`{"a":1,"b":2}`), hLit(`{"a":3}`)), call("to_array", hLit("[1]")),
+		call("to_array", hLit("null")), call("to_string", hRaw("s")), call("to_string", hLit("[1]")), call("type", hLit("null")),
+		call("sort_by", hLit(`[{"k":2,"v":"x"},{"k":1,"v":"y"},{"k":2,"v":"z"}]`), ref(hField("k"))),
+		call("max_by", hLit(`[{"k":2,"v":"x"},{"k":1,"v":"y"},{"k":2,"v":"z"}]`), ref(hField("k"))),
+		call("min_by", hLit(`[{"k":2,"v":"x"},{"k":1,"v":"y"},{"k":1,"v":"z"}]`), ref(hField("k"))),
+		call("sort_by", hLit(`[{"k":1},{"k":"a"}]`), ref(hField("k"))), call("sort_by", hLit(`[{"k":null}]`), ref(hField("k"))),
+		call("max_by", hLit(`[{"k":null}]`), ref(hField("k"))), call("min_by", hLit(`[{"k":[]}]`), ref(hField("k"))))
+	return dedupe(out)
+}
+
+// ---------- error contexts (C11) ----------
+func familyCtx(tier string) []tmpl {
+	th := tier == "thorough"
+	var out []tmpl
+	a, b := hField("a"), hField("b")
+	errs := []tmpl{call("nosuch", hCur()), call("abs", hRaw("s")), call("abs", hCur())}
+	ctx := func(e tmpl) []tmpl {
+		ec := sCall("abs", hRaw("s"))
+		_ = ec
+		es := step{kind: "call", text: "." + e.text, spec: e.spec, mode: e.mode}
+		c := []tmpl{
+			e,
+			buildChain(e, sField("a")), buildChain(a, es), buildChain(e, sIndex("0")), pipe(e, a), pipe(a, e),
+			hList(a, e), hList(e, a), hHash("k", e), hHash("j", a, "k", e),
+			buildChain(e, sProj()), buildChain(a, sProj(), es), buildChain(e, sVproj()), buildChain(a, sVproj(), es),
+			buildChain(e, sFlat()), buildChain(a, sFlat(), es), buildChain(e, sFilter(a)), buildChain(a, sFilter(e)),
+			buildChain(a, sFilter(b), es), buildChain(e, sSlice("1", "_", "_")), buildChain(a, sSlice("_", "_", "0")),
+			buildChain(a, sSlice("1", "_", "_"), es), buildChain(a, sSlice("?1", "?2", "?3")),
+			tOr(e, a), tOr(a, e), tAnd(e, a), tAnd(a, e), tNot(e), cmp(cmpOps[0], e, a), cmp(cmpOps[2], a, e), cmp(cmpOps[1], a, e),
+			call("type", e), call("not_null", a, e), call("not_null", e, a), call("length", e),
+			call("map", ref(e), a), call("sort_by", a, ref(e)), call("max_by", a, ref(e)), call("min_by", a, ref(e)),
+			buildChain(hParen(e), sField("a")), hParen(e),
+		}
+		return c
+	}
+	for _, e := range errs {
+		out = append(out, ctx(e)...)
+	}
+	// nested once more: an erroring context inside each context
+	inner := []tmpl{hList(a, errs[1]), tOr(a, errs[1]), buildChain(a, sProj(), sCall("abs", hRaw("s"))), buildChain(errs[1], sFlat()),
+		buildChain(a, sFilter(errs[2])), pipe(a, errs[0])}
+	if th {
+		inner = append(inner, tAnd(a, errs[2]), buildChain(errs[1], sVproj()), buildChain(errs[1], sFilter(a)), hHash("k", errs[0]), call("type", errs[1]))
+	}
+	for _, in := range inner {
+		p := hParen(in)
+		out = append(out, pipe(p, a), pipe(a, p), hList(p), hHash("k", p), buildChain(p, sProj()), buildChain(p, sFlat()), buildChain(p, sVproj()),
+			buildChain(p, sFilter(a)), buildChain(a, sFilter(p)), tOr(p, a), tOr(a, p), tAnd(a, p), tNot(p), cmp(cmpOps[0], p, a),
+			call("type", p), call("map", ref(p), a), call("sort_by", a, ref(p)), buildChain(p, sIndex("0")), buildChain(p, sField("a")))
+	}
 	return dedupe(out)
 }
